@@ -49,6 +49,13 @@ class _Op:
     op: ast.operator
 
 
+@dataclass(frozen=True)
+class _Meth:
+    """a bound method of the object under evaluation, used as a value (e.g. handed to filter())"""
+
+    name: str
+
+
 OPERATOR_FUNCS = {"operator.or_": ast.BitOr(), "operator.and_": ast.BitAnd(), "operator.xor": ast.BitXor(), "operator.add": ast.Add(), "operator.sub": ast.Sub(), "operator.ior": ast.BitOr()}
 
 
@@ -180,6 +187,9 @@ class MiniEval:
             return self.expr(f.node.body, {**f.env, **dict(zip(names, args))})
         if isinstance(f, _Op) and len(args) == 2:
             return self.binop(f.op, args[0], args[1])
+        if isinstance(f, _Meth):
+            call = ast.Call(ast.Attribute(ast.Name("self", ast.Load()), f.name, ast.Load()), [ast.Name(f"arg{i}__", ast.Load()) for i in range(len(args))], [])
+            return self.expr(call, {"self": None, **{f"arg{i}__": a for i, a in enumerate(args)}})
         raise AnalysisError(f"minieval: cannot call {f!r}")
 
     def issub(self, a, b) -> bool:
@@ -213,6 +223,10 @@ class MiniEval:
             d = dotted(e)
             if d and d in self.attrs:
                 return self.attrs[d]
+            if d and d.startswith("self.") and d.count(".") == 1 and self.cls is not None and env.get("self") is None:
+                mfi = P.find_method(self.cls.name, e.attr)
+                if mfi is not None and not any(isinstance(x, ast.Name) and x.id in ("property", "staticmethod", "classmethod") for x in mfi.node.decorator_list):
+                    return _Meth(e.attr)
             if d and d.startswith("self.") and d.count(".") == 1 and self.cls is not None:
                 got = P.class_attr(self.cls.name, e.attr)
                 if got:
@@ -310,6 +324,11 @@ class MiniEval:
             if d.split(".")[0] in self.module.imports and d.split(".")[0] not in env:
                 d = ".".join([self.module.imports[d.split(".")[0]]] + d.split(".")[1:])  # through the import table: or_ -> operator.or_
             args = [self.expr(a, env) for a in e.args]
+            if d in ("filter", "map") and len(args) == 2 and not e.keywords and d not in env:
+                items = list(self.iterate(args[1]))
+                if d == "map":
+                    return tuple(self.apply(args[0], [x]) for x in items)
+                return tuple(x for x in items if (self.truth(x) if args[0] is None else self.truth(self.apply(args[0], [x]))))
             if d in ("functools.reduce", "reduce") and len(args) in (2, 3) and not e.keywords:
                 items = list(self.iterate(args[1]))
                 if len(args) == 3:
